@@ -36,7 +36,8 @@ BUFFERS = [0, 1, 2]
 INVARIANTS = ["RectNeighboursAre4Adjacency", "RectNeighboursSymmetric", "RectRowsAscendingNoRepeat", "CaseTableValidFrom2x2",
               "FewerThanFourIsFrame", "FrameCount", "OverlayFillsTheBox", "EdgeRelationSymmetric", "AdjacencySymmetric",
               "EdgesAreTriangleSides", "RidgeTableIsAdjacency", "EulerCount", "HullIsUnboundedCells", "HullEdgesAreDelaunay",
-              "KitesTileTheTriangle", "BoundedCellsHavePositiveArea", "EveryVertexInATriangle"]
+              "KitesTileTheTriangle", "BoundedCellsHavePositiveArea", "ExactAreaInBracket", "PermutationCovariant",
+              "EveryVertexInATriangle"]
 
 MC_CFG = """CONSTANTS
   RectShapes <- MCShapes
@@ -173,6 +174,16 @@ def a_fix(x, scale, nan=NANV):
     ok = np.isfinite(a) & (np.abs(a) < LIM - 1)
     out = np.where(ok, np.rint(np.where(ok, a, 0.0)), nan).astype(np.int64)
     return out.tolist()
+
+
+def a_frac(x, max_den=10000, tol=1e-9):
+    """the fraction with denominator <= max_den that x is (residual <= tol, relative for |x| > 1); [OFF, 1] when there is none"""
+    if not np.isfinite(x) or abs(x) > 1e5:
+        return [OFF, 1]
+    f = Fraction(float(x)).limit_denominator(max_den)
+    if abs(float(f) - float(x)) > tol * max(1.0, abs(x)):
+        return [OFF, 1]
+    return [int(f.numerator), int(f.denominator)]
 
 
 def _snap(v):
@@ -440,7 +451,7 @@ def tri_records(inst):
     try:
         mesh = _tri_mesh(inst, arr)
     except Exception as e:
-        return [dict(base, api="tri", parts=[], nbr=[], sizes=[], edge=[], F=F, areas=[], unb=[], mag=[], pixels=-1, org2=[OFF, OFF],
+        return [dict(base, api="tri", parts=[], nbr=[], sizes=[], edge=[], F=F, areas=[], aq=[], unb=[], mag=[], pixels=-1, org2=[OFF, OFF],
                      ext=[OFF] * 4, hist=[], raised=type(e).__name__)]
     order = [q for q in inst["order"] if q in reads]
     if inst.get("decoy"):        # a mesh with the same number of vertices at other positions (mirrored, other order) is inspected first
@@ -458,7 +469,7 @@ def tri_records(inst):
     recs = []
 
     # ---- tables --------------------------------------------------------------------------------------------
-    tr = dict(base, api="tri", parts=[], nbr=[], sizes=[], edge=[], F=F, areas=[], unb=[], mag=[0] * n, pixels=-1, org2=[OFF, OFF],
+    tr = dict(base, api="tri", parts=[], nbr=[], sizes=[], edge=[], F=F, areas=[], aq=[], unb=[], mag=[0] * n, pixels=-1, org2=[OFF, OFF],
               ext=[OFF] * 4, hist=[h for h in hist if h.split(":")[-1] not in split_q + ("interp",)], raised="")
     nb, ed, ar = again["neighbors"], again["edge_pixel_list"], again["areas"]
     for v in (nb, ed, ar, again.get("mag", 0)):
@@ -478,6 +489,7 @@ def tri_records(inst):
         a = np.asarray(ar, dtype=float)
         tr["unb"] = [int(k) for k in np.nonzero(a == -1.0)[0]]
         tr["areas"] = a_fix(np.where(a == -1.0, 0.0, a) / (tau * tau), F)
+        tr["aq"] = [a_frac(x / (tau * tau)) if x != -1.0 else [0, 1] for x in a]
         if vor:
             tr["mag"] = a_fix(np.asarray(again["mag"], dtype=float) / (tau * tau), F)
     try:
@@ -510,7 +522,7 @@ def tri_records(inst):
                 okd = np.all(np.isfinite(d) & (np.abs(d - dr) <= 1e-6), axis=(1, 2)) & okh
                 sp["sdir"] = [[int(x) for x in dr[k].reshape(8)] if okd[k] else [9] * 8 for k in range(n)]
                 s4 = np.where(okh, 4.0 * hs * hs * F, -2.0)
-                sp["s4"] = [int(x) if abs(x) < LIM - 1 else -2 for x in np.rint(s4)]
+                sp["s4"] = [(max(int(x), 1) if okh[k] else -2) if abs(x) < LIM - 1 else -2 for k, x in enumerate(np.rint(s4))]
         recs.append(sp)
 
     # ---- interpolation ----------------------------------------------------------------------------------------
@@ -606,6 +618,8 @@ def _random_sets(args):
     rng = np.random.default_rng([seed, 29, idx])
     if kind == "5x5":
         return random_gp_set(rng, int(rng.integers(5, 8)), 5)
+    if kind == "5x5+":
+        return random_gp_set(rng, int(rng.integers(6, 8)), 5)
     if kind == "7x7":
         return random_gp_set(rng, int(rng.integers(5, 10)), 7)
     return jittered_lattice_set(rng, int(rng.integers(10, 41)))
@@ -613,7 +627,7 @@ def _random_sets(args):
 
 # ================================================================================================================
 KEEP = ("api", "id", "cls", "my", "mx", "pts", "b", "bdef", "cen", "ps", "org2", "shape", "pixels", "ext", "raised", "nbr", "sizes", "edge",
-        "hist", "lin", "Q", "extdef", "H", "W", "G", "out", "oshape", "V", "parts", "F", "areas", "unb", "mag", "sent", "s4", "sdir", "vals",
+        "hist", "lin", "Q", "extdef", "H", "W", "G", "out", "oshape", "V", "parts", "F", "areas", "aq", "unb", "mag", "sent", "s4", "sdir", "vals",
         "out2", "via")
 
 
@@ -665,8 +679,9 @@ def bounds_for(quick):
         return {"rect_shapes_up_to": [4, 5], "lattice": 5, "exhaustive_vertices_up_to": 4, "classes_per_enumerated_set": 1,
                 "random_5x5_sets_5_to_7": 400, "random_7x7_sets_5_to_9": 120, "random_jittered_sets_10_to_40": 8,
                 "random_rect_meshes": 150, "triangle_area_calls": 60}
-    return {"rect_shapes_up_to": [6, 7], "lattice": 5, "exhaustive_vertices_up_to": 6, "classes_per_enumerated_set": 2,
-            "random_5x5_sets_5_to_7": 6000, "random_7x7_sets_5_to_9": 3000, "random_jittered_sets_10_to_40": 120,
+    # thorough: the 5x5 sets of 5 vertices are exhaustive, so the random 5x5 sets have 6..7 vertices
+    return {"rect_shapes_up_to": [6, 7], "lattice": 5, "exhaustive_vertices_up_to": 5, "classes_per_enumerated_set": 2,
+            "random_5x5_sets_5_to_7": 8000, "random_7x7_sets_5_to_9": 4000, "random_jittered_sets_10_to_40": 150,
             "random_rect_meshes": 2000, "triangle_area_calls": 600}
 
 
@@ -704,7 +719,7 @@ def run(ctx):
     ctx.replayed = len(titems) + len(ritems)
 
     # ---- seeded random larger instances ----------------------------------------------------------------------------------
-    kinds = ["5x5"] * b["random_5x5_sets_5_to_7"] + ["7x7"] * b["random_7x7_sets_5_to_9"] + ["jit"] * b["random_jittered_sets_10_to_40"]
+    kinds = ["5x5" if ctx.quick else "5x5+"] * b["random_5x5_sets_5_to_7"] + ["7x7"] * b["random_7x7_sets_5_to_9"] + ["jit"] * b["random_jittered_sets_10_to_40"]
     sets = core.pmap(_random_sets, [(ctx.seed, kd, k) for k, kd in enumerate(kinds)])
     sets = [s for s in sets if s is not None]
     ritems2 = [(10 ** 6 + k, s, classes[k % 2], False) for k, s in enumerate(sets)]
